@@ -4,7 +4,8 @@ PROP = {'modules': ['AmVerif.Props.C07'],
  'engines': [{'name': 'iso', 'quick': 36, 'thorough': 300},
              {'name': 'iso', 'tag': 'iso-parking_lot', 'features': 'parking_lot', 'first': 5, 'quick': 1, 'thorough': 150},
              {'name': 'conc', 'tag': 'conc-racers', 'quick': 4, 'thorough': 40, 'classes': ['racers-diverge', 'presence-flipped', 'harness-panic']},
-             {'name': 'hr', 'tag': 'hr-two-changes', 'first': 7, 'quick': 1, 'thorough': 100, 'shrink': False, 'classes': ['stale-after-hot-reload', 'sync-timeout']}],
+             {'name': 'hr', 'tag': 'hr-two-changes', 'first': 7, 'quick': 1, 'thorough': 100, 'shrink': False, 'classes': ['stale-after-hot-reload', 'sync-timeout']},
+             {'name': 'hr', 'tag': 'hr-barrier', 'first': 3, 'quick': 1, 'thorough': 40, 'shrink': False, 'classes': ['event-before-hot-reload-missed', 'sync-timeout']}],
  'rule': 'value type Big<N> (N in {1,2,16,64,512} words, all equal to the version + checksum) loaded from a MemSource file so that every reload '
          'swaps it in place. case 0: fixed scenario (guard, edit, reload blocked behind the guard, re-read, map, drop, reload returns, new value); '
          'case 1: malformed stream; 2 of 3 later cases: random scripts (guards taken / re-read / mapped with map and try_map / dropped on the main '
